@@ -320,10 +320,11 @@ def random_histories(res, ctx, rng):
 def long_windows(res, ctx, rng):
     """Windows holding hundreds to thousands of same-thread events (a long-running call)."""
     inv = H.inventory()
-    for _ in range(ctx.pick(6, 60)):
+    ladder = list(ctx.pick((4095, 4096, 5000), (4095, 4096, 5000, 16384, 20000, 65536, 70000))) if ctx.shard == 0 else []
+    for it in range(ctx.pick(6, 60) + len(ladder)):
         outer = rng.choice(inv['bsd'])
         inner_codes = rng.sample(inv['decodable'], 3) + rng.sample(inv['undecoded_sample'], 1) + ['TRACE_DATA_EXEC']
-        n = rng.choice((255, 256, 257, 300, 1000, 2500))
+        n = ladder[it] if it < len(ladder) else rng.choice((255, 256, 257, 300, 1000, 2500))
         history = [mk_event(rng, 1000, outer, 1, 5)]
         for i in range(n):
             code = rng.choice(inner_codes)
